@@ -35,7 +35,16 @@ func (a *A) C02() {
 	// call-site rules of C19): nothing between the pool and the parser may withhold a unit
 	a.parserFirst()
 	a.assembledPayload()
+	// a unit is made of the payload-carrying packets of its own PID: packets without payload never enter an accumulator
+	// (S5 of C06/C07 — an adaptation-field-only packet queued on an empty PSI queue is flushed as a unit of its own) and the
+	// accumulator that receives a packet is the one the map holds under the packet's PID (I1 of C07 — a cached accumulator
+	// survives the end-of-stream drain that removed it from the map)
+	a.filtersFirst()
+	a.keyedByPID()
 }
+
+// AssembledPayload runs R8 alone (every payload of the group is copied into the pooled buffer, in order, completely).
+func (a *A) AssembledPayload() { a.assembledPayload() }
 
 // R1 (contract of dumpUnlocked that NextData's drain relies on): an empty result means the pool is empty. The function
 // removes accumulators in a loop and leaves it early only with a non-empty queue: every `delete` on the pool's map sits in
